@@ -800,7 +800,7 @@ pub fn run(sc: &Value) -> Vec<String> {
                                 loop {
                                     let bs = if tr_bufs.is_empty() { 4096 } else { tr_bufs[i % tr_bufs.len()].max(1) };
                                     i += 1;
-                                    if i % 2 == 0 {
+                                    if i % 2 == 0 || (!tr_bufs.is_empty() && i > 1) {
                                         // an empty read in between hands out nothing and loses nothing
                                         let _ = tr.read(&mut []);
                                     }
